@@ -482,11 +482,19 @@ def run_case(case, M, tier="quick"):
     if spec_mc != [mc[S] for S in nts]:
         raise RuntimeError(f"Lean minCostSpec and the harness oracle disagree: {spec_mc} vs {[mc[S] for S in nts]}")
     out["mincost_model_ok"] = str(ans0[7]) == "1"
+    out["stable"] = str(ans0[8]) == "1"
+    # theorem C03_Beap_minCost_stable: at a fixpoint of _reevaluate_ the model's first costs are the minimal costs
+    if out["stable"] and not out["mincost_model_ok"]:
+        raise RuntimeError("model: fixpoint state whose first costs differ from Beap.minCostSpec (contradicts C03_Beap_minCost_stable)")
+    if recursive_flag and not out["stable"]:
+        raise RuntimeError("model: _reevaluate_ returned a state that is not a fixpoint (contradicts C03_Beap_reevaluate_fixpoint)")
     impl_mc = [enc_cost(en0._cost_lists[S][0]) if en0._cost_lists[S] else None for S in nts]
     bad = [(k, impl_mc[k], mc[nts[k]]) for k in range(len(nts)) if impl_mc[k] is not None and impl_mc[k] != (0, mc[nts[k]])]
     out["mincost_bad"] = bad
     if cyclic and not recursive_flag:
         corr.append(("is_recursive() is false on a grammar with a cycle", ""))
+    if not out["stable"]:
+        corr.append(("the state after the prologue is not a fixpoint of _reevaluate_ (hypothesis Stable of C03_Beap_minCost_stable)", ""))
     # the run
     en = fresh()
     plan = plan_of(case, len(lang) if lang is not None else None)
@@ -636,5 +644,8 @@ def float_run(g, probs, take):
 
 # --------------------------------------------------------------------------- findings
 def finding_of(case, r, pid):
-    """decidable classifiers of the open findings of this part (functions of the case only)"""
+    """decidable classifiers of the open findings of this part (functions of the case only).
+    C12-F5: the script declares at least one merge (merge_program after the enumeration has started)"""
+    if pid == "C12" and case.get("merges"):
+        return "C12-F5"
     return None
